@@ -168,6 +168,15 @@ def worker_loop(
                 except Exception as e:
                     # Log any error during processing without crashing the loop
                     worker_logger.exception(f"Worker failed job {job_id}: {e}")
+                    # Report the failure so that the caller's Future completes
+                    # exceptionally instead of waiting forever
+                    transport.publish(
+                        f"jobs.{job_id}.status",
+                        data=None,
+                        context=ContextType({"job_id": job_id}),
+                        metadata={"job_id": job_id, "error": e},
+                        require_ack=False,
+                    )
 
             # Close this subscription before the next polling iteration
             sub.close()
